@@ -72,7 +72,13 @@ def run_property(prog, pid, tier, repo, static_only=False):
                 try:
                     again = _with_time_limit(lambda: list(r(_inlined(prog), tier, repo)), 150)
                     bad2 = [i for res in again for i in res.instances if i.status == 'violation' and i.full_key() not in known]
-                    if not bad2 and again:
+                    # the second verdict must decide at least as many obligations as the first one looked at: an obligation
+                    # that merely disappears from the inlined view (a rule that reasons about the functions themselves, like
+                    # the grammar productions) is not discharged by it
+                    n1 = sum(1 for res in results for i in res.instances
+                             if i.status == 'ok' or (i.status == 'violation' and not i.key.startswith(('cannot-decide:', 'floor:'))))
+                    n2 = sum(1 for res in again for i in res.instances if i.status == 'ok')
+                    if not bad2 and again and n2 >= n1:
                         for res in again:
                             res.analysed['decided_on'] = 'the view with private helper functions inlined (the code as written splits the shape across functions)'
                         results = again
